@@ -4,8 +4,8 @@
 
   The history clauses are stated per step on the observed store before (`P`) and after (`Q`)
   the operation; `specTrace` checks them along a history, up to the first operation that is
-  outside the property's quantifier (`opOk`/`stOk` false: no requester, a user name presented as an
-  identifier value, a candidate id equal to a user name, …).
+  outside the property's quantifier (`opOk`/`stOk` false: a user name presented as an identifier
+  value, a candidate id equal to a user name, an unknown user, …).
 -/
 import PysamlModel.Model.Ident
 
@@ -34,35 +34,37 @@ def held (db : DB) (u : Str) : List NameId := (userPieces db u).filterMap pieceN
 def sameQual (m : NameId) (spq nq : Option Str) : Bool :=
   normF m.spq == normF spq && normF m.nq == normF nq
 
-/-- `m` is a non-transient identifier for (requester, qualifier) -/
+/-- `m` is a persistent identifier for (requester, qualifier) -/
 def isReg (K : Consts) (spq nq : Option Str) (m : NameId) : Bool :=
-  m.fmt != some K.transient && sameQual m spq nq
+  m.fmt == some K.persistent && sameQual m spq nq
 
-/-- the persistent identifier currently registered for (user, requester, qualifier): the first one -/
-def regNid (K : Consts) (db : DB) (u : Str) (spq nq : Option Str) : Option NameId :=
-  (userPieces db u).findSome? (fun p => (pieceNid p).filter (isReg K spq nq))
+/-- the persistent identifier registered for (requester, qualifier) among `l`: the first one -/
+def regIn (K : Consts) (l : List NameId) (spq nq : Option Str) : Option NameId := l.find? (isReg K spq nq)
+def regTextIn (K : Consts) (l : List NameId) (spq nq : Option Str) : Option Str := (regIn K l spq nq).bind (·.text)
 
 def regText (K : Consts) (db : DB) (u : Str) (spq nq : Option Str) : Option Str :=
-  (regNid K db u spq nq).bind (·.text)
+  regTextIn K (held db u) spq nq
 
 def heldTexts (users : List Str) (db : DB) : List Str :=
   users.flatMap (fun u => (held db u).filterMap (·.text))
 
+def ownedBy (Q : DB) (t : Option Str) (u : Option Str) : Bool :=
+  match t with
+  | some t => u.isSome && Q.get t == u
+  | none => false
+
 /-- (A) reversible: every registered identifier maps back to exactly the user holding it -/
 def revOk (users : List Str) (db : DB) : Bool :=
-  users.all fun u => (held db u).all fun m =>
-    match m.text with
-    | some t => db.get t == some u
-    | none => false
+  users.all fun u => (held db u).all fun m => ownedBy db m.text (some u)
 
 /-- (B) distinct: no user holds one value twice (with (A): no value is held by two users) -/
 def distinctOk (users : List Str) (db : DB) : Bool :=
   users.all fun u => decide ((held db u).map (·.text)).Nodup
 
-/-- no user holds two non-transient identifiers for one (requester, qualifier) -/
+/-- (E) no user holds two persistent identifiers for one (requester, qualifier) -/
 def uniqueRegOk (K : Consts) (users : List Str) (db : DB) : Bool :=
   users.all fun u => decide ((held db u).Pairwise
-    (fun a b => ¬ (a.fmt ≠ some K.transient ∧ isReg K a.spq a.nq b = true)))
+    (fun a b => ¬ (a.fmt = some K.persistent ∧ isReg K a.spq a.nq b = true)))
 
 /-! ### per operation -/
 
@@ -77,27 +79,17 @@ def touched : Op → Res → Option Str
   | .removeRemote n, .done => n.text
   | _, _ => none
 
-def isRemove : Op → Bool
-  | .removeRemote _ => true
-  | _ => false
+def untouched (tt : Option Str) (m : NameId) : Bool := !(tt.isSome && m.text == tt)
 
-/-- (D) an operation affects only that identifier -/
-def frameOk (K : Consts) (users : List Str) (P Q : DB) (op : Op) (res : Res) : Bool :=
+/-- (D) an operation affects only that identifier: every user's other identifiers are the same,
+    in the same order, before and after (with (E) this keeps every other registered persistent
+    identifier what it was: `frame_keeps_reg` in Props) -/
+def frameOk (users : List Str) (P Q : DB) (op : Op) (res : Res) : Bool :=
   let tt := touched op res
-  users.all fun u =>
-    ((held P u).all fun m => (tt.isSome && m.text == tt) || (held Q u).contains m) &&
-    ((held Q u).all fun m => (tt.isSome && m.text == tt) || (held P u).contains m) &&
-    ((held P u).all fun m => m.fmt == some K.transient ||
-        regText K Q u m.spq m.nq == regText K P u m.spq m.nq ||
-        (isRemove op && tt.isSome && regText K P u m.spq m.nq == tt))
+  users.all fun u => (held Q u).filter (untouched tt) == (held P u).filter (untouched tt)
 
 def isFresh (users : List Str) (P : DB) (t : Str) : Bool :=
   !P.has t && !(heldTexts users P).contains t
-
-def ownedBy (Q : DB) (t : Option Str) (u : Option Str) : Bool :=
-  match t with
-  | some t => u.isSome && Q.get t == u
-  | none => false
 
 def fltOk (flt : List (Nat × Option Str)) (n : NameId) : Bool := flt.all (fun kv => getField n kv.1 == kv.2)
 
@@ -167,14 +159,13 @@ def constructFmt (localFmt : Option Str) (pol : Option Policy) : Option Str :=
   | none => localFmt
 
 def opOk (users : List Str) (cfg : Cfg) : Op → Bool
-  | .persistent u spq _ cands => users.contains u && truthy spq && candsOk users cfg cands
-  | .transient u spq _ cands => users.contains u && truthy spq && candsOk users cfg cands
-  | .getNameid u fmt spq _ cands => users.contains u && truthy spq && !fmt.isEmpty && candsOk users cfg cands
-  | .construct u lf spq pol _ cands =>
-    users.contains u && truthy (constructSpq spq pol) && truthy (constructFmt lf pol) && candsOk users cfg cands
+  | .persistent u _ _ cands => users.contains u && candsOk users cfg cands
+  | .transient u _ _ cands => users.contains u && candsOk users cfg cands
+  | .getNameid u _ _ _ cands => users.contains u && candsOk users cfg cands
+  | .construct u _ _ _ _ cands => users.contains u && candsOk users cfg cands
   | .findNameid u _ => users.contains u
   | .findLocalId n => match n.text with | some t => !users.contains t | none => true
-  | .mapping n pol cands => textOk users n && truthy pol.fmt && truthy pol.spq && candsOk users cfg cands
+  | .mapping n pol cands => textOk users n && truthy pol.fmt && candsOk users cfg cands
   | .manage n _ => textOk users n
   | .removeRemote n => textOk users n
   | .removeLocal _ => true
@@ -201,7 +192,7 @@ def stOk (K : Consts) (cfg : Cfg) (P : DB) (op : Op) : Bool :=
   effFmt K op != some K.email || (opCands op).all fun c => !P.has (c ++ 64 :: cfg.domain)
 
 def specStep (K : Consts) (users : List Str) (watch : List NameId) (P : State) (op : Op) (res : Res) (Q : State) : Bool :=
-  revOk users Q.db && distinctOk users Q.db && frameOk K users P.db Q.db op res &&
+  revOk users Q.db && distinctOk users Q.db && uniqueRegOk K users Q.db && frameOk users P.db Q.db op res &&
   resOk K users P.db Q.db op res && sdbOk watch P Q op res
 
 /-- walk along a history: `steps` = (operation, observed result, observed state after it) -/
